@@ -124,3 +124,9 @@ Definition zb_eqb (a b : Z * bool) : bool := Z.eqb (fst a) (fst b) && Bool.eqb (
 Definition check_dp (c : bool * nat * list dcase_row * list (Z * bool)) : bool :=
   let '(obs_supplied, nkeys, rows, expected) := c in
   list_eqb zb_eqb (daily_out obs_supplied nkeys rows) expected.
+
+(* ---- stream ex : the guard pattern_ok against the code: on a clock pattern (no Long 23 / Short 0 adjacency) the chain
+   correct_dst -> 24 slots per day -> _transform_dst -> one value per clock hour goes through on the implementation
+   exactly when pattern_ok holds (C06_hourly_guard_exact) *)
+Definition check_ex (c : list daykind * bool) : bool :=
+  forallb kind_ok (fst c) && Bool.eqb (pattern_ok (fst c)) (snd c).
